@@ -343,6 +343,12 @@ func Gen(c *core.Chooser, p *PDU, o GenOpt) *Msg {
 // numbering plan 1 (ISDN) and a number written the E.164 way, with its plus sign - or the alphanumeric pair 5/0 with
 // a name. Independent generators produce such a triple once in tens of thousands of PDUs.
 func e164(m *Msg, k int) {
+	// the two time fields of a submit: the formats of the specification, the all-zero relative time among them
+	for _, name := range []string{"schedule_delivery_time", "validity_period"} {
+		if v := m.F[name]; v != nil && k%5 < 3 {
+			v.B = []byte([]string{"000000000000000R", "000000000015000R", "991231235959000+", "000101000000000-", "", "000000010000000R"}[(k/5+len(name))%6])
+		}
+	}
 	fs := m.PDU.Fields
 	for i := 0; i+2 < len(fs); i++ {
 		if !strings.HasSuffix(fs[i].Name, "addr_ton") || !strings.HasSuffix(fs[i+1].Name, "addr_npi") || fs[i+2].Kind != KCStr {
